@@ -175,9 +175,11 @@ func consistency(n datamodel.Node, path string) (problem string) {
 			cnt++
 			want := termOf(v)
 			for name, f := range map[string]func() (datamodel.Node, error){
-				"LookupByIndex":         func() (datamodel.Node, error) { return n.LookupByIndex(i) },
-				"LookupBySegment(int)":  func() (datamodel.Node, error) { return n.LookupBySegment(datamodel.PathSegmentOfInt(i)) },
-				"LookupBySegment(str)":  func() (datamodel.Node, error) { return n.LookupBySegment(datamodel.PathSegmentOfString(strconv.FormatInt(i, 10))) },
+				"LookupByIndex":        func() (datamodel.Node, error) { return n.LookupByIndex(i) },
+				"LookupBySegment(int)": func() (datamodel.Node, error) { return n.LookupBySegment(datamodel.PathSegmentOfInt(i)) },
+				"LookupBySegment(str)": func() (datamodel.Node, error) {
+					return n.LookupBySegment(datamodel.PathSegmentOfString(strconv.FormatInt(i, 10)))
+				},
 			} {
 				got, err := f()
 				if err != nil {
@@ -324,11 +326,11 @@ func mutateVal(v core.Val, r *core.Rand) core.Val {
 func c01Batch(c *core.Ctx, vals []core.Val) error {
 	// lines: plan run (the history used), accessor rows for the root and one random subnode, eq pair
 	type cse struct {
-		v, w   core.Val
-		ops    []core.AsmOp
-		sub    core.Val
-		r      *core.Rand
-		line   string
+		v, w core.Val
+		ops  []core.AsmOp
+		sub  core.Val
+		r    *core.Rand
+		line string
 	}
 	cases := make([]cse, len(vals))
 	var lines []string
